@@ -457,7 +457,7 @@ func simplifyMisroute(p *Plan) []*Plan {
 func init() {
 	register(&Profile{
 		ID: "C03", Name: "misroute", Level: "exploration",
-		Rule: "each run: 1-3 deliveries of a validly signed foreign-IdP response to an SP (entity ID set/unset, custom audience validator on/off, received-at URL equal to the ACS URL or carrying an extra query, xml/post/artifact entry, 3 signing layouts, plaintext/encrypted) in which Response Issuer, Assertion Issuer, each of 1-2 Recipients, each of 0-3 audiences, Destination, StatusCode (and ArtifactResponse issuer/status) are independently correct / near-miss (trailing slash, suffix, truncation, query, case, look-alike host, fragment, trailing space) / wrong / empty / absent — i.e. the message was minted for another party with a confusable name; one step in eight is fully correct; non-trivial = at least one field deviates; distinct = distinct abstract log",
+		Rule: "each run: 1-3 deliveries of a validly signed foreign-IdP response to an SP (entity ID set/unset, custom audience validator on/off, received-at URL equal to the ACS URL or carrying an extra query, xml/post/artifact entry, 3 signing layouts, plaintext/encrypted) in which Response Issuer, Assertion Issuer, each of 1-2 Recipients, each of 0-3 audiences, Destination, StatusCode (and ArtifactResponse issuer/status) are independently correct / near-miss (trailing slash, suffix, truncation, query, case, look-alike host, fragment, trailing space) / wrong / empty / absent — i.e. the message was minted for another party with a confusable name; one step in eight is fully correct; non-trivial = at least one field deviates; distinct = distinct abstract log; knobs also include AllowIDPInitiated and a path-only received-at URL; near-miss destinations include a foreign authority with the same path",
 		Gen:  genMisroute, Exec: execMisroute, Simplify: simplifyMisroute,
 		RunsQuick: 6000, RunsThorough: 600000,
 		Assumptions: []string{"near-miss strings come from a constructed population, not from all strings", "several AudienceRestrictions of which only some name the SP, and a missing Destination on a signed Response that did not travel through the browser (artifact), are declared don't-care", "with a custom audience validator the validator's verdict is the oracle for audiences"},
